@@ -7,6 +7,7 @@ using namespace nix;
 
 namespace sim {
 extern int g_trace;
+static void index_records(const Node &n, std::map<std::string, const Node *> &idx);
 
 static const char *kNames[] = {
 #define X(n, o, m) #n,
@@ -39,7 +40,10 @@ bool wellformed_uuid(const std::string &s) {
 }
 
 void World::fail(const std::string &oracle, const std::string &detail) {
-    if (viol.set) return;
+    // several oracles may fire at one step; the one that belongs to the lane's own property is the one reported
+    bool own = oracle.compare(0, lane_prop.size(), lane_prop) == 0 && oracle.size() > lane_prop.size() && oracle[lane_prop.size()] == '.';
+    if (viol.set && (viol_own || !own)) return;
+    viol_own = own;
     viol.set = true; viol.oracle = oracle; viol.op_index = cur;
     viol.op = (cur >= 0 && cur < (int) plan.ops.size()) ? op_name(plan.ops[cur].kind) : "-";
     viol.arg_class = arg_class; viol.detail = detail;
@@ -121,6 +125,7 @@ void World::gather_handles(uint64_t sub) {
 
 void World::close_file(bool gather, uint64_t sub) {
     if (!is_open) return;
+    live.clear();
     if (gather) gather_handles(sub);
     std::string p = path;
     try {
@@ -275,6 +280,50 @@ void World::post_models(const Node &doc) {
 }
 
 // ---------------------------------------------------------------------------------------------
+// long-lived handles: what a handle obtained earlier in the session shows must be what a fresh lookup shows
+
+static bool subset_equal(const Node &livev, const Node &rec, std::string &where) {
+    for (auto &k : livev.kids) {
+        const Node *o = rec.find(k.key);
+        if (!o) continue;
+        if (!node_equal(k, *o, where)) { where = k.key + where; return false; }
+    }
+    return true;
+}
+
+void World::check_live(const Node &doc) {
+    if (live.empty()) return;
+    std::map<std::string, const Node *> idx;
+    index_records(doc, idx);
+    int checked = 0;
+    for (auto it = live.begin(); it != live.end();) {
+        Kept &k = it->second;
+        auto f = idx.find(k.id);
+        if (f == idx.end()) { it = live.erase(it); continue; }     // entity is gone: not a long-lived handle any more
+        if (checked >= 10) { ++it; continue; }
+        Node n;
+        try {
+            switch (k.kind) {
+                case 0: n = observe_block(k.block); break; case 1: n = observe_array(k.array); break; case 2: n = observe_frame(k.frame); break;
+                case 3: n = observe_tag(k.tag); break; case 4: n = observe_mtag(k.mtag); break; case 5: n = observe_group(k.group); break;
+                case 6: n = observe_source(k.source); break; case 7: n = observe_section(k.section); break; case 8: n = observe_property(k.property); break;
+                default: break;
+            }
+        } catch (const std::exception &) { ++it; continue; }
+        checked++;
+        cnt.inc("live_handles.checked");
+        std::string where;
+        if (!subset_equal(n, *f->second, where)) {
+            std::string ac = arg_class;
+            arg_class += ",live-kind=" + std::to_string(k.kind);
+            fail(lane_prop == "C03" ? "C03.agree-live" : lane_prop == "C15" ? "C15.cell-live" : lane_prop == "C13" ? "C13.faithful-live" : lane_prop == "C14" ? "C14.values-live" : lane_prop == "C01" ? "C01.read-live" : "C02.live-handle",
+                 "a handle obtained earlier in this session (kind " + std::to_string(k.kind) + ", entity " + f->second->field("name") + ") shows something else than a fresh lookup of the same entity at " + where);
+            arg_class = ac;
+            return;
+        }
+        ++it;
+    }
+}
 
 static void clock_jump(World &w, int sel) {
     static const int64_t d[] = {0, 0, 1, 2, 61, 3600, 86400 * 3, 86400 * 400, -1, -3600, -86400 * 30};
@@ -320,20 +369,19 @@ static void after_op(World &w, const Op &op, int rc) {
     bool need = op_modifies(op.kind) || rc == 1 || !w.have_last;
     if (!need) return;
     Node doc = w.obs();
-    if (w.failed()) return;
     std::string where;
     if (w.have_last) {
         if (rc == 1 && w.mode == 0) {
             // C08 is about calls rejected on a writable file; on a ReadOnly file every mutator is refused by mode (C09)
             w.cnt.inc("rejected_calls");
-            if (!node_equal(w.last, doc, where)) { w.fail("C08.no-trace", "call threw but the observable state changed at " + where); return; }
+            if (!node_equal(w.last, doc, where)) w.fail("C08.no-trace", "call threw but the observable state changed at " + where);
         }
         if (w.mode == 1 && rc == 0 && op_modifies(op.kind) && !node_equal(w.last, doc, where)) {
-            w.fail("C09.ro-mutator-throws", "mutating call returned normally on a ReadOnly file and the observable state changed at " + where); return;
+            w.fail("C09.ro-mutator-throws", "mutating call returned normally on a ReadOnly file and the observable state changed at " + where);
         }
         // replace-whole-list setters re-link every member in the order given: relative order of survivors is theirs to choose
         bool relinks = op.kind == OP_tag_setrefs || op.kind == OP_set_sources || op.kind == OP_group_set;
-        if (!relinks && !order_preserved(w.last, doc, where)) { w.fail("C03.order", where); return; }
+        if (!relinks && !order_preserved(w.last, doc, where)) w.fail("C03.order", where);
         if (!w.del_victim.empty() && rc == 0 && w.del_result) {
             Node expect = w.last;
             std::set<std::string> ids;
@@ -341,7 +389,7 @@ static void after_op(World &w, const Op &op, int rc) {
                 remove_ids(expect, ids);
                 w.cnt.inc("delete.checked");
                 w.cnt.inc("delete.subtree_ids", ids.size());
-                if (!node_equal(expect, doc, where)) { w.fail("C04.transform", "after deleting " + w.del_victim + " the document differs from 'victim removed everywhere, nothing else touched' at " + where); return; }
+                if (!node_equal(expect, doc, where)) w.fail("C04.transform", "after deleting " + w.del_victim + " the document differs from 'victim removed everywhere, nothing else touched' at " + where);
                 for (auto &k : w.del_handles) {
                     bool valid = true;
                     try {
@@ -355,7 +403,7 @@ static void after_op(World &w, const Op &op, int rc) {
                         }
                     } catch (const std::exception &) { valid = false; }
                     w.cnt.inc("delete.stale_handles_checked");
-                    if (valid) { w.arg_class += ",stale-kind=" + std::to_string(k.kind); w.fail("C04.invalid", "handle (kind " + std::to_string(k.kind) + ") to deleted entity " + k.id + " still reports isValidEntity()==true"); return; }
+                    if (valid) { std::string ac = w.arg_class; w.arg_class += ",stale-kind=" + std::to_string(k.kind); w.fail("C04.invalid", "handle (kind " + std::to_string(k.kind) + ") to deleted entity " + k.id + " still reports isValidEntity()==true"); w.arg_class = ac; break; }
                     k.deleted = true; k.session = w.session;
                     // handles to deleted entities are retained only where misuse is the subject: an open handle keeps the
                     // unlinked HDF5 object - and every hard link stored inside it - alive
@@ -364,9 +412,9 @@ static void after_op(World &w, const Op &op, int rc) {
             }
         }
         ids_oracles(w, doc);
-        if (w.failed()) return;
     }
     w.post_models(doc);
+    w.check_live(doc);
     if (w.failed()) return;
     w.state_hashes.insert(node_hash(doc, true));
     w.last = doc; w.have_last = true;
@@ -374,6 +422,7 @@ static void after_op(World &w, const Op &op, int rc) {
 
 int World::exec(const Op &op) {
     del_victim.clear(); del_handles.clear(); del_result = false;
+    prefer_live = ((op.sub >> 9) & 3) != 0;      // three out of four operations reuse a long-lived handle when there is one
     switch (op.kind) {
         case OP_flush: case OP_reopen: case OP_kill: case OP_drop: case OP_clock: case OP_flush_fault: case OP_use_stale: case OP_keep:
             return exec_session(op);
@@ -586,6 +635,7 @@ int World::exec_session(const Op &op) {
         Node before = last;
         bool was_ro = mode == 1;
         flush_valid = false;
+        live.clear();
         f = nix::none;               // File object destroyed without close(); entity handles keep the backend alive
         is_open = false; ro_tracking = false;
         cnt.inc("drop");
